@@ -82,7 +82,8 @@ def sequences(F, fn, loop_k=1):
             untracked += 1
             continue
         key = tuple(sorted("%s %s %s" % (conn.short(strip_sites(conn.expand_all(ex.interned_rev, k))), c[0], sorted(c[1]) if isinstance(c[1], frozenset) else c[1]) for k, c in p.cons.items()))
-        out.append((key, [norm_item(ex.interned_rev, strip_sites(conn.expand_all(ex.interned_rev, it))) for it in r[1]], p))
+        raw = [strip_sites(conn.expand_all(ex.interned_rev, it)) for it in r[1]]
+        out.append((key, [norm_item(ex.interned_rev, it) for it in raw], p, raw))
     return out, untracked
 
 
